@@ -117,6 +117,34 @@ Section C13.
       rewrite conj_sum. apply sum_ext. intros k _.
       rewrite conj_mul. rewrite <- (rho_hermitian b k). reflexivity.
     Qed.
+
+    (* ---- overall scale: the state c * psi (quimb: tensors + a scalar prefactor
+       10^exponent).  Every unnormalised quantity picks up c * conj c, so the
+       normalised ones do not depend on where the scale is held. *)
+    Theorem rho_scale c k b :
+      Model.rho K k0 kadd kmul conj (fun k r => c * psi k r) dr k b = (c * conj c) * rho psi dr k b.
+    Proof.
+      unfold Model.rho. rewrite <- sum_mul_l. apply sum_ext. intros r _. rewrite conj_mul. ring.
+    Qed.
+
+    Theorem tr_rho_scale c :
+      Model.tr_rho K k0 kadd kmul conj (fun k r => c * psi k r) dk dr = (c * conj c) * tr_rho psi dk dr.
+    Proof.
+      unfold Model.tr_rho. rewrite <- sum_mul_l. apply sum_ext. intros k _. apply rho_scale.
+    Qed.
+
+    Theorem expec_scale c O :
+      Model.expec K k0 kadd kmul conj (fun k r => c * psi k r) dk dr O = (c * conj c) * expec psi dk dr O.
+    Proof.
+      unfold Model.expec. rewrite <- sum_mul_l. apply sum_ext. intros k _.
+      rewrite <- sum_mul_l. apply sum_ext. intros b _. rewrite rho_scale. ring.
+    Qed.
+
+    (* <O>/<1> cross-multiplied: the same for psi and for c * psi *)
+    Corollary normalised_value_scale_independent c O :
+      Model.expec K k0 kadd kmul conj (fun k r => c * psi k r) dk dr O * tr_rho psi dk dr
+      = expec psi dk dr O * Model.tr_rho K k0 kadd kmul conj (fun k r => c * psi k r) dk dr.
+    Proof. rewrite expec_scale, tr_rho_scale. ring. Qed.
   End OneBlock.
 
   (* ---- two kept sites: site order = operator factor order --------------------- *)
